@@ -39,6 +39,70 @@ def run_property(prop: str, tier: str, root: str, overlay=None, quiet=False) -> 
     return rep
 
 
+_ANCHORED = None
+
+
+def anchored_names() -> frozenset:
+    """Short names of every function some property is anchored in (they stay calls in the `inline` view)."""
+    global _ANCHORED
+    if _ANCHORED is None:
+        names = set()
+        for p in PROPS:
+            if not os.path.exists(os.path.join(HERE, "sa", "props", f"{p}.py")):
+                continue
+            try:
+                mod = importlib.import_module(f"sa.props.{p}")
+            except Exception:
+                continue
+            for attr in dir(mod):
+                v = getattr(mod, attr)
+                if isinstance(v, (list, tuple)) and v and all(isinstance(x, str) for x in v):
+                    for x in v:
+                        if "::" in x:
+                            names.add(x.split("::")[1].split(".")[-1].split("@")[0])
+        _ANCHORED = frozenset(names)
+    return _ANCHORED
+
+
+def reconcile_with_views(prop: str, tier: str, root: str, rep: Report, overlay=None) -> Report:
+    """Structural rules look for a construct; when one is not found the obligation is re-evaluated on behaviour-preserving views of the same
+    program (sa/views.py: private helpers inlined, comprehensions unrolled).  It is refuted only if it is refuted on every view."""
+    bad = [o for o in rep.new_refuted()] + [o for o in rep.undecided()]
+    if not bad:
+        return rep
+    from sa.views import view_overlays
+    keep = anchored_names()
+    model = Model(root, overlay=overlay)
+    sources = {m.relpath: m.source for m in model.modules.values()} if isinstance(model.modules, dict) else {m.relpath: m.source for m in model.modules}
+    for name, ov in view_overlays(sources, keep):
+        pending = [o for o in rep.obligations if o.status in ("refuted", "undecided") and o in bad]
+        if not pending:
+            break
+        try:
+            vrep = run_property(prop, tier, root, overlay=ov)
+        except Exception:
+            continue
+        good = {}
+        for o in vrep.obligations:
+            if o.status == "discharged":
+                good.setdefault((o.rule, o.where, o.desc), o)
+        still_bad = {(o.rule, o.where, o.desc) for o in vrep.obligations if o.status != "discharged"}
+        for o in pending:
+            k = (o.rule, o.where, o.desc)
+            if k in good and k not in still_bad:
+                o.status = "discharged"
+                o.detail = f"holds on the equivalent view `{name}` of the program (as written: {o.detail[:160]})"
+        rep.note(f"re-evaluated on the equivalent view `{name}`")
+    # errors raised only because of constructs that the views resolved (floors) stay as they are: they were computed on the program as written
+    return rep
+
+
+def decide_property(prop: str, tier: str, root: str, overlay=None) -> Report:
+    """The analysis of the program as written, reconciled with its equivalent views: what every entry point (CLI, self-test, seed evaluation) uses."""
+    rep = run_property(prop, tier, root, overlay=overlay)
+    return reconcile_with_views(prop, tier, root, rep, overlay=overlay)
+
+
 def main(argv=None) -> int:
     ap = argparse.ArgumentParser()
     ap.add_argument("prop")
@@ -52,7 +116,7 @@ def main(argv=None) -> int:
         if prop not in PROPS or not os.path.exists(os.path.join(HERE, "sa", "props", f"{prop}.py")):
             print(f"ANALYSIS-ERROR unknown or unclaimed property {prop}")
             return 2
-        rep = run_property(prop, ns.tier, ns.root)
+        rep = decide_property(prop, ns.tier, ns.root)
         if ns.replay:
             with open(ns.replay) as f:
                 rp = json.load(f)
